@@ -52,6 +52,7 @@ inline void random_value(vrt::Rng &r, DataType dt, int nc, int cls, uint8_t *dst
                        memcpy(dst + 4 * c, &v, 4); break; }
       case DT_UINT32: { uint32_t v = cls == 0 ? (uint32_t)r.range(0, 40) : cls == 1 ? (uint32_t)r.range(0, 1 << 21) : cls == 2 ? r.u32() : (r.coin() ? UINT32_MAX - (uint32_t)r.range(0, 50) : (uint32_t)r.range(0, 50));
                         memcpy(dst + 4 * c, &v, 4); break; }
+      case DT_FLOAT64: { const double v = cls == 0 ? r.range(-8, 8) * 0.25 : (r.unit() * 2.0 - 1.0) * (cls == 2 ? 1e6 : 1.0); memcpy(dst + 8 * c, &v, 8); break; }
       default: {
         float v;
         switch (cls) {
@@ -177,8 +178,8 @@ inline Geom gen_geometry(vrt::Rng &r, bool want_mesh, const GenParams &gp) {
       else if (t == 1) { d.type = GeometryAttribute::COLOR; d.dt = r.coin(3, 4) ? DT_UINT8 : DT_FLOAT32; d.nc = r.range(3, 4); d.normalized = d.dt == DT_UINT8 && r.coin(); }
       else if (t == 2) { d.type = GeometryAttribute::TEX_COORD; d.dt = r.coin(3, 4) ? DT_FLOAT32 : DT_UINT16; d.nc = 2; }
       else {
-        static const DataType gdt[] = {DT_INT8, DT_UINT8, DT_INT16, DT_UINT16, DT_INT32, DT_UINT32, DT_FLOAT32};
-        d.type = GeometryAttribute::GENERIC; d.dt = gdt[r.range(0, 6)]; d.nc = r.range(1, 5);
+        static const DataType gdt[] = {DT_INT8, DT_UINT8, DT_INT16, DT_UINT16, DT_INT32, DT_UINT32, DT_FLOAT32, DT_FLOAT64};
+        d.type = GeometryAttribute::GENERIC; d.dt = gdt[r.range(0, 7)]; d.nc = r.range(1, 5);
       }
       d.identity = r.coin(); d.nvals = std::max(1, r.range(1, std::max(1, np)));
       descs.push_back(d);
